@@ -633,16 +633,17 @@ class PGPUID(ParentRef):
         if self._uid.uid == "":
             return "", "", ""
         rfc2822 = re.match(r"""^
-                           # name should always match something
-                           (?P<name>.+?)
+                           # the name may be missing: a mail address alone, '<alice@example.com>', is an RFC 2822 name-addr
+                           (?P<name>.*?)
                            # comment *optionally* matches text in parens following name
                            # this should never come after email and must be followed immediately by
                            # either the email field, or the end of the packet.
-                           (\ \((?P<comment>.+?)\)(?=(\ <|\Z)))?
+                           (\ \((?P<comment>.+?)\)(?=(\ ?<|\Z)))?
                            # email *optionally* matches text in angle brackets following name or comment
                            # this should never come before a comment, if comment exists,
                            # but can immediately follow name if comment does not exist
-                           (\ <(?P<email>.+)>)?
+                           # (the blank before it is optional: there may be no name, and RFC 2822 does not require one)
+                           (\ ?<(?P<email>.+)>)?
                            \Z
                            """, self._uid.uid, flags=re.VERBOSE | re.DOTALL).groupdict()   # a user id may contain line breaks
 
